@@ -1969,6 +1969,9 @@ class Engine:
                 raise PyRaise("AttributeError")
             self.ev(n.value, st)
             return [(st, "next", None)]
+        if isinstance(n.value, ast.Attribute):       # a property read for its effect (e.g. to trigger a lazy computation)
+            self.ev(n.value, st)
+            return [(st, "next", None)]
         raise Unsupported("expr stmt " + ast.unparse(n))
 
     def st_Raise(self, n, st):
